@@ -119,4 +119,10 @@ QPNoVertexBetter(Q, c, cand, V) ==
 SumOf(v) == <<Sum(v.num), v.den>>
 MinSumVert(V) == CHOOSE v \in V : \A u \in V : RLeq(SumOf(v), SumOf(u))
 MaxSumVert(V) == CHOOSE v \in V : \A u \in V : RLeq(SumOf(u), SumOf(v))
+(* ... and of the sum over a subset I of the coordinates (a set of indices)              *)
+RECURSIVE SumIdx(_, _)
+SumIdx(x, I) == IF I = {} THEN 0 ELSE LET j == CHOOSE k \in I : TRUE IN x[j] + SumIdx(x, I \ {j})
+SubSumOf(v, I) == <<SumIdx(v.num, I), v.den>>
+MinSubSum(V, I) == LET v == CHOOSE v \in V : \A u \in V : RLeq(SubSumOf(v, I), SubSumOf(u, I)) IN SubSumOf(v, I)
+MaxSubSum(V, I) == LET v == CHOOSE v \in V : \A u \in V : RLeq(SubSumOf(u, I), SubSumOf(v, I)) IN SubSumOf(v, I)
 =============================================================================
